@@ -51,6 +51,17 @@ def rank_exact(rows):
     return rk
 
 
+
+def _dedupe(cases_):
+    """the same cell can be listed by two enumerations (e.g. a tall shape that the thorough bound also reaches): keep the first."""
+    seen, out_ = set(), []
+    for c in cases_:
+        if c["key"] not in seen:
+            seen.add(c["key"])
+            out_.append(c)
+    return out_
+
+
 def cases(tier, seed):
     S = 3 if tier == "quick" else 5
     out = []
@@ -70,7 +81,7 @@ def cases(tier, seed):
             if emb == "cadj" and not (m == k == n):
                 continue
             out.append({"key": f"mult/{emb}/{m}x{k}x{n}", "emb": emb, "mult": True, "m": m, "k": k, "n": n})
-    return out
+    return _dedupe(out)
 
 
 def emb_fn(lib, emb):
